@@ -33,6 +33,7 @@ func propC12(w *World, r *Report) {
 		r.Assumes(a)
 	}
 	RunLosslessFor(w, r, "C12", newBoundsRun(w))
+	RunLosslessControls(r)
 	RunExtremumInit(w, r, losslessFuncs(w, r, "C12"))
 	r.Floor("extremuminit", 3)
 	RunTimeInverse(w, r)
